@@ -19,7 +19,9 @@ from . import progs
 
 THEOREMS = ["rw_identity", "rw_items", "rw_total", "rw_significant", "rw_hints", "rw_tokens", "rw_tokens_pred", "unsafe_example", "parse_unique",
             "shortChars_decode", "shortnames_inj", "shortName_class", "pkg_local_disjoint", "short_not_reserved",
-            "do_is_a_candidate", "names_distinct", "names_fresh", "firstFree_total", "newVariable_total"]
+            "do_is_a_candidate", "names_distinct", "names_fresh", "firstFree_total", "newVariable_total",
+            "ident_needsSpace", "ws_between_idents_kept", "old_needsSpace_counterexample", "old_varptr_counterexample",
+            "varPtrName_cached"]
 
 KW = ["abstract", "arguments", "await", "async", "boolean", "break", "byte", "case", "catch", "char", "class", "const",
       "continue", "debugger", "default", "delete", "do", "double", "else", "enum", "eval", "export", "extends", "false",
@@ -108,8 +110,13 @@ def gen_soup(rng, size):
             out += rand_ident(rng).encode()
         elif k < 0.30:
             out += rand_number(rng).encode()
-        elif k < 0.40:
+        elif k < 0.36:
             out += b'"' + rand_strbody(rng).encode() + b'"'
+        elif k < 0.40:
+            # a literal ENDING in an (escaped) backslash, then another literal whose blanks / comment text must survive
+            out += b'"' + rand_strbody(rng).encode() + rng.choice([b"\\\\", b"\\\\\\\\", b"\\\"\\\\"]) + b'"'
+            out += rng.choice([b",", b", ", b" + ", b";\n\t", b"](", b" /* c */ "])
+            out += b'"' + rng.choice([b" ( a , b ) ", b" ; /* x */ , ", b"a  -  - b", b" \\\" /* y */ \\\\", b"{ } [ ]  //  "]) + b'"'
         elif k < 0.62:
             out += rng.choice(PUNCT).encode()
         elif k < 0.70:
@@ -140,7 +147,7 @@ def gen_statements(rng, n):
     for _ in range(n):
         ind = "\t" * rng.randrange(1, 4)
         a, b, c = rand_ident(rng), rand_ident(rng), rand_ident(rng)
-        k = rng.randrange(12)
+        k = rng.randrange(14)
         if k == 0:
             s = "%s = %s - -%s >> 0;" % (a, b, c)
         elif k == 1:
@@ -163,8 +170,10 @@ def gen_statements(rng, n):
             s = "%s.%s = (%s - -%s) * -%s;" % (a, b, a, b, c)
         elif k == 10:
             s = "$s = -1; } return; } var $f = {$blk: %s, $c: true, $r, %s, %s, $s};return $f;" % (a, b, c)
-        else:
+        elif k == 11:
             s = "%s[%s] = %s--; %s++;" % (a, b, c, a)
+        else:
+            s = "%s = %s(\"%s\\\\\", \" ( %s ) /* %s */ , \") + \"%s\\\\\" + \" ; - - \";" % (a, b, rand_strbody(rng), c, a, rand_strbody(rng))
         h = rand_hint(rng) if rng.random() < 0.3 else b""
         lines.append(h + (ind + s + "\n").encode("utf-8"))
     return b"".join(lines)
@@ -205,6 +214,7 @@ def gen_name_script(rng, minify, big):
             "été", "v 1", "café·x", "$ptr", "_", "x$1"]
     disciplined = True
     nreq = 0
+    fvars = []          # identities of function-level variables whose address is taken (shared by generic instances)
     target = big if big else rng.choice([5, 30, 120])
     if big:
         # one function context (or the package context) receives all `big` names
@@ -217,12 +227,26 @@ def gen_name_script(rng, minify, big):
         if big:
             k = 1.0
         if k < 0.06 and len(stack) < 8:
-            lines.append("nm child %d %s" % (stack[-1], hx(rng.choice(["main", "f", "T.m", "main.func1", "g.func1.func2"]).encode())))
+            lines.append("nm %s %d %s" % (rng.choice(["child", "child", "gchild"]), stack[-1],
+                                          hx(rng.choice(["main", "f", "T.m", "main.func1", "g.func1.func2"]).encode())))
             stack.append(nxt)
             nxt += 1
             nreq += 1
         elif k < 0.10 and len(stack) > 1:
             stack.pop()
+        elif k < 0.22 and not big:
+            # &v: a new variable, or one already seen (the same object in another instantiation / a nested literal)
+            if rng.random() < 0.15:
+                vid = 100000 + rng.randrange(4)
+                lines.append("nm ptr %d %d %s 1" % (stack[-1], vid, hx(("g%d" % vid).encode())))
+            else:
+                if fvars and rng.random() < 0.6:
+                    vid = rng.choice(fvars)
+                else:
+                    vid = len(fvars)
+                    fvars.append(vid)
+                lines.append("nm ptr %d %d %s 0" % (stack[-1], vid, hx(("x%d" % vid).encode())))
+            nreq += 1
         else:
             if big:
                 name = "v%d" % nreq if rng.random() < 0.8 else rng.choice(pool)
@@ -242,6 +266,28 @@ def gen_name_script(rng, minify, big):
     return lines, disciplined
 
 
+def generic_ptr_script(minify, nbefore, nafter, ninst):
+    """The shape of the varPtrName defect: several instantiations of one generic function, each taking the address of
+    the same variable object between other allocations."""
+    lines = ["nm new %d" % (1 if minify else 0)]
+    sid = 1
+    for inst in range(ninst):
+        lines.append("nm gchild 0 " + hx(b"bump"))
+        for i in range(nbefore + (inst % 2)):       # type-dependent temporaries: instances allocate differently
+            lines.append("nm req %d %s 0" % (sid, hx(("a%d" % i).encode())))
+        lines.append("nm ptr %d 7 %s 0" % (sid, hx(b"local")))
+        for i in range(nafter):
+            lines.append("nm req %d %s 0" % (sid, hx(("b%d" % i).encode())))
+        lines.append("nm ptr %d 7 %s 0" % (sid, hx(b"local")))
+        lines.append("nm child %d %s" % (sid, hx(b"bump.func1")))
+        lines.append("nm ptr %d 7 %s 0" % (sid + 1, hx(b"local")))
+        lines.append("nm req %d %s 0" % (sid + 1, hx(b"c")))
+        lines.append("nm locals %d" % (sid + 1))
+        lines.append("nm locals %d" % sid)
+        sid += 2
+    return lines, True
+
+
 def names_oracle(lines, answers):
     """Specification check on the implementation's answers of a disciplined script: visible names pairwise distinct,
     never reserved, package-level names disjoint from locals."""
@@ -249,6 +295,7 @@ def names_oracle(lines, answers):
     locs = {0: []}
     pkg = []
     bad = []
+    ptrs = {}
     nxt = 1
     for ln, ans in zip(lines, answers):
         w = ln.split()
@@ -261,10 +308,30 @@ def names_oracle(lines, answers):
             stack.append(sid)
             locs[sid] = []
             new, is_pkg = name, True
+        elif w[1] == "gchild":
+            p = int(w[2])
+            while stack[-1] != p:
+                locs.pop(stack.pop())
+            sid, name = ans.split()
+            sid = int(sid)
+            stack.append(sid)
+            locs[sid] = []
+            new, is_pkg = name, True
         elif w[1] == "req":
             while stack[-1] != int(w[2]):       # scopes popped by the history are dead
                 locs.pop(stack.pop())
             new, is_pkg = ans, w[4] == "1"
+        elif w[1] == "ptr":
+            while stack[-1] != int(w[2]):
+                locs.pop(stack.pop())
+            key = (w[3], w[5])
+            vis = set(pkg)
+            for s_ in stack:
+                vis.update(locs[s_])
+            if ptrs.get(key) == ans and ans in vis:
+                continue                      # the recorded name, still in scope: nothing allocated
+            ptrs[key] = ans
+            new, is_pkg = ans, w[5] == "1"
         else:
             continue
         if new in ("panic", "bad-op", "bad-scope"):
@@ -405,6 +472,10 @@ def rand_gostr(rng):
 
 def prog_strings(rng, n):
     strs = [rand_gostr(rng) for _ in range(n)]
+    for _ in range(2):
+        i = rng.randrange(0, max(1, n - 1))
+        strs[i] = strs[i] + rng.choice(["\\", "\\\\", "\"\\", "x\\"])
+        strs[i + 1 if i + 1 < n else 0] = rng.choice([" ( a , b ) ", " ; /* x */ , ", "a  -  - b", " \" /* y */ \\", "{ } [ ]  //  "])
     names = pick_names(rng, 6, avoid=("s", "i", "m", "k", "total"))
     L = ["package main", "", "type pair struct {", "\tkey string", "\tval int", "}", ""]
     L.append("var table = []string{")
@@ -444,7 +515,10 @@ def prog_strings(rng, n):
     L.append("\tprintln(%s, len(%s), int(%s), %s.key, %s.val)" % (a, a, b, c, c))
     L.append("\t%s := %s == %s || %s < %s" % (d, a, goq(strs[0]), a, goq("/* " + strs[1 % n])))
     L.append("\tprintln(%s)" % d)
+    L.append("\tprintln(join(\"a\\\\\", \" ( b ) /* c */ , \") + \"d\\\\\" + \" ; - - \", len(join(%s, %s)))" % (goq(strs[0]), goq(strs[1 % n])))
     L.append("}")
+    L.append("")
+    L.append("func join(a, b string) string { return a + \"|\" + b }")
     return "\n".join(L) + "\n"
 
 
@@ -588,6 +662,127 @@ def prog_closures(rng, ending):
     return "\n".join(L) + "\n"
 
 
+
+NONASCII = ["Ünique", "étape", "ßeta", "Δx", "π", "日本", "Ωmega", "ñu", "Ünique2", "élan"]
+
+
+def prog_nonascii(rng):
+    """Identifiers whose first letter is not ASCII: labels (emitted verbatim after `continue ` / `break ` / `goto `),
+    variables, functions, types, methods, fields; in a plain function and in a blocking (flattened) one."""
+    n = list(NONASCII)
+    rng.shuffle(n)
+    lab1, lab2, lab3, v1, v2, f1, t1, m1, fld = n[:9]
+    a, b = rng.randrange(2, 5), rng.randrange(2, 5)
+    L = ["package main", ""]
+    L.append("type %s struct{ %s int }" % (t1, fld))
+    L.append("func (r %s) %s(k int) int { return r.%s*k - -1 }" % (t1, m1, fld))
+    L.append("")
+    L.append("func %s(%s int) int {" % (f1, v1))
+    L.append("\t%s := 0" % v2)
+    L.append("%s:" % lab1)
+    L.append("\tfor i := 0; i < %d; i++ {" % (a + 2))
+    L.append("\t%s:" % lab2)
+    L.append("\t\tfor j := 0; j < %d; j++ {" % (b + 2))
+    L.append("\t\t\tswitch {")
+    L.append("\t\t\tcase j == %d:" % (b - 1))
+    L.append("\t\t\t\tcontinue %s" % lab1)
+    L.append("\t\t\tcase i == %d && j == 0:" % a)
+    L.append("\t\t\t\tbreak %s" % lab1)
+    L.append("\t\t\tcase (i+j)%3 == 0:")
+    L.append("\t\t\t\tcontinue %s" % lab2)
+    L.append("\t\t\tcase i+j > %d:" % (a + b))
+    L.append("\t\t\t\tbreak %s" % lab2)
+    L.append("\t\t\t}")
+    L.append("\t\t\t%s += 10*i + j + %s" % (v2, v1))
+    L.append("\t\t}")
+    L.append("\t}")
+    L.append("\treturn %s" % v2)
+    L.append("}")
+    L.append("")
+    L.append("func blocking(ch chan int, %s int) int {" % v1)
+    L.append("\t%s := 0" % v2)
+    L.append("\tk := 0")
+    L.append("%s:" % lab3)
+    L.append("\tfor i := 0; i < 4; i++ {")
+    L.append("\t\tfor j := 0; j < 3; j++ {")
+    L.append("\t\t\tch <- i*3 + j")
+    L.append("\t\t\tx := <-ch")
+    L.append("\t\t\tif x%%%d == 1 {" % a)
+    L.append("\t\t\t\tcontinue %s" % lab3)
+    L.append("\t\t\t}")
+    L.append("\t\t\tif x > 9 {")
+    L.append("\t\t\t\tbreak %s" % lab3)
+    L.append("\t\t\t}")
+    L.append("\t\t\t%s += x + %s" % (v2, v1))
+    L.append("\t\t}")
+    L.append("\t}")
+    L.append("%s:" % lab1)
+    L.append("\tif k < 3 {")
+    L.append("\t\tk++")
+    L.append("\t\t%s += k" % v2)
+    L.append("\t\tgoto %s" % lab1)
+    L.append("\t}")
+    L.append("\treturn %s" % v2)
+    L.append("}")
+    L.append("")
+    L.append("func main() {")
+    L.append("\tprintln(%s(%d), %s(%d))" % (f1, rng.randrange(1, 9), f1, rng.randrange(1, 9)))
+    L.append("\tprintln(blocking(make(chan int, 1), %d))" % rng.randrange(1, 9))
+    L.append("\t%s := %s{%s: %d}" % (v1, t1, fld, rng.randrange(1, 9)))
+    L.append("\tprintln(%s.%s(%d), %s.%s)" % (v1, m1, rng.randrange(1, 9), v1, fld))
+    L.append("}")
+    return "\n".join(L) + "\n"
+
+
+def prog_generic_ptr(rng):
+    """Generic functions / methods instantiated several times that take the address of locals (`&local`) between other
+    allocations, directly and from a nested function literal; the instantiations share the variable objects."""
+    nb, na = rng.randrange(0, 4), rng.randrange(1, 4)
+    n = pick_names(rng, 10, avoid=("get", "set", "local", "other", "r", "k", "v", "T", "Box", "p", "q", "f"))
+    L = ["package main", "", "func get(p *int) int { return *p }", "func set(p *int, v int) { *p = v }", ""]
+    L.append("type Box[T any] struct{ v T }")
+    L.append("")
+    L.append("func bump[T any](v T, k int) int {")
+    for i in range(nb):
+        L.append("\t%s := k + %d" % (n[i], i + 1))
+    L.append("\tlocal := k")
+    L.append("\tr := get(&local)")
+    for i in range(na):
+        L.append("\t%s := k*%d + r" % (n[4 + i], i + 2))
+    L.append("\tset(&local, r*2 + 1)")
+    L.append("\tr += get(&local)")
+    L.append("\tother := k * 3")
+    L.append("\tf := func(d int) int { q := &other; *q += d; return *q }")
+    L.append("\tr = r*10 + f(1) + get(&other)")
+    L.append("\tvar zero T")
+    L.append("\t_ = zero")
+    for i in range(nb):
+        L.append("\tr = (r*3 + %s) & 0xFFFF" % n[i])
+    for i in range(na):
+        L.append("\tr = (r*3 + %s) & 0xFFFF" % n[4 + i])
+    L.append("\treturn r")
+    L.append("}")
+    L.append("")
+    L.append("func (b *Box[T]) sum(k int) int {")
+    L.append("\tlocal := k + 1")
+    L.append("\tp := &local")
+    L.append("\t%s := k * 7" % n[8])
+    L.append("\t*p += %s" % n[8])
+    L.append("\t%s := get(&local) - -k" % n[9])
+    L.append("\treturn %s*100 + *p" % n[9])
+    L.append("}")
+    L.append("")
+    L.append("func main() {")
+    L.append("\tprintln(bump[int](1, %d))" % rng.randrange(1, 9))
+    L.append("\tprintln(bump[string](\"x\", %d))" % rng.randrange(1, 9))
+    L.append("\tprintln(bump[bool](true, %d))" % rng.randrange(1, 9))
+    L.append("\tprintln(bump[float64](1.5, %d))" % rng.randrange(1, 9))
+    L.append("\tprintln((&Box[int]{1}).sum(%d), (&Box[string]{\"s\"}).sum(%d), (&Box[[]int]{nil}).sum(%d))" % (
+        rng.randrange(1, 9), rng.randrange(1, 9), rng.randrange(1, 9)))
+    L.append("}")
+    return "\n".join(L) + "\n"
+
+
 WITNESS_CONSOLE = """package main
 
 func main() {
@@ -612,6 +807,10 @@ def gen_programs(rng, tier):
         add("strings", prog_strings(rng, rng.choice([8, 16, 30])))
     for _ in range(2 if tier == "quick" else 12):
         add("minus", prog_minus(rng))
+    for _ in range(2 if tier == "quick" else 8):
+        add("nonascii", prog_nonascii(rng))
+    for _ in range(2 if tier == "quick" else 8):
+        add("genericptr", prog_generic_ptr(rng))
     for e in (["exit", "panic", "nilmap", "index"] if tier == "quick" else ["exit", "panic", "nilmap", "index"] * 3):
         add("closures-" + e, prog_closures(rng, e))
     return jobs
@@ -776,6 +975,10 @@ def run(tier, seed):
         scripts.append(gen_name_script(rng, minify, 2100))
         for _ in range(40 if tier == "thorough" else 8):
             scripts.append(gen_name_script(rng, minify, 0))
+    for minify in (True, False):
+        for nb, na, ni in ([(1, 2, 2), (0, 1, 3), (3, 3, 2)] if tier == "quick" else
+                           [(a, b, c) for a in range(4) for b in range(4) for c in (2, 3)]):
+            scripts.append(generic_ptr_script(minify, nb, na, ni))
     if tier == "thorough":
         scripts.append(gen_name_script(rng, True, 5000))
     nm_ops = list(ops)
@@ -786,7 +989,7 @@ def run(tier, seed):
     impl = C.run_gvh_lines(["ops"], nm_ops, name="gvh_c16")
     model = C.run_driver("C16", nm_ops)
     chk.compare("newVariable", nm_ops, impl, model,
-                kind=lambda o, a: "nm:" + o.split()[1] + (":pkg" if o.split()[1] == "req" and o.endswith(" 1") else ""))
+                kind=lambda o, a: "nm:" + o.split()[1] + (":pkg" if o.split()[1] in ("req", "ptr") and o.endswith(" 1") else ""))
     maxscope = 0
     for lo, hi, disc, minify in spans:
         if disc:
